@@ -4,7 +4,7 @@ package alncheck
 // M[reference letter index][query letter index], index 0 being the gap letter:
 // M[x][0] is reference letter x against a gap, M[0][y] is query letter y against a gap.
 
-const negInf = -1 << 40
+const negInf = -1 << 60 // far below any score the cases can reach (entries up to 2^40, sequences of a few hundred letters)
 
 func max2(a, b int) int {
 	if a > b {
